@@ -18,7 +18,8 @@ func validateMaps(env *Environment, errorSink *validation.ErrorSink) *Environmen
 		t := GetUnderlyingType(m.KeyType)
 		if st, ok := t.(*SimpleType); ok {
 			switch st.ResolvedDefinition.(type) {
-			case nil, PrimitiveDefinition:
+			case nil, PrimitiveDefinition, *GenericTypeParameter:
+				// nil: the key type could not be resolved, which has already been reported
 				return
 			}
 		}
